@@ -239,7 +239,13 @@ def _generate(rng, tier):
     elif r < 0.2:
         # 2**-12 keeps the stop time apart from every sum of the (larger) delays
         offset = rng.choice([0.75, 1.5, 3, 5, 9, 20, 40]) + 2 ** -12
-        if rng.random() < 0.25:
+        if rng.random() < 0.2:
+            # decimal initial and stop times whose difference is neither exact nor dyadic (no tie
+            # with an event): the run must stop at exactly the given number
+            scenario["initial_time"], scenario["until"] = rng.choice(
+                [(0.2, 0.9), (0.3, 0.9), (0.6, 1.7), (0.7, 2.9), (0.2, 2.9), (0.3, 1.7)])
+            gen.features.add("until-decimal")
+        elif rng.random() < 0.25:
             # a stop time of exactly 0 / 0.0 (falsy), reached from a negative initial time
             scenario["initial_time"] = -offset
             scenario["until"] = rng.choice([0, 0.0])
